@@ -63,6 +63,11 @@ pub struct Scenario {
     pub sack: u32,
     /// the receiver restarts at this tick (0 = never): group and every registration forgotten
     pub forget: usize,
+    /// run-time setting changes, applied right after the given tick was observed: (tick, what, value) with
+    /// what = 0 mode (0 enhanced / 1 classic), 1 quality scoring (0/1), 2 stalled-link guard (0/1), 3 connection timeout (ms)
+    pub cfg: Vec<(usize, u8, u64)>,
+    /// the SRT source sends nothing during ticks [.0, .1) ((0, 0) = never pauses)
+    pub quiet: (usize, usize),
     /// ticks to observe
     pub ticks: usize,
 }
@@ -79,7 +84,7 @@ impl Scenario {
             })
             .collect();
         format!(
-            "ips={} reloads={} admit2={} pps={} rtt={} nak={}:{}:{} bh={} sack={} forget={} ticks={}",
+            "ips={} reloads={} admit2={} pps={} rtt={} nak={}:{}:{} bh={} sack={} forget={} cfg={} quiet={}:{} ticks={}",
             l(&self.ips),
             if rl.is_empty() { "-".into() } else { rl.join(",") },
             self.admit2,
@@ -91,11 +96,14 @@ impl Scenario {
             if self.bh.is_empty() { "-".to_string() } else { self.bh.iter().map(|(a, b, c)| format!("{a}:{b}:{c}")).collect::<Vec<_>>().join(",") },
             self.sack,
             self.forget,
+            if self.cfg.is_empty() { "-".to_string() } else { self.cfg.iter().map(|(a, b, c)| format!("{a}:{b}:{c}")).collect::<Vec<_>>().join(",") },
+            self.quiet.0,
+            self.quiet.1,
             self.ticks
         )
     }
 
-    /// Strict: exactly the ten `key=value` tokens of `render`, in that order; numbers are 1..9 decimal digits.
+    /// Strict: exactly the twelve `key=value` tokens of `render`, in that order; numbers are 1..9 decimal digits.
     /// (`Srtla.Drv.looptraceWellFormed` accepts exactly the same lines.)
     pub fn parse(toks: &[&str]) -> Option<Scenario> {
         fn num(s: &str) -> Option<u64> {
@@ -115,7 +123,7 @@ impl Scenario {
             }
             Some((num(p[0])?, num(p[1])?, num(p[2])?))
         }
-        if toks.len() != 10 {
+        if toks.len() != 12 {
             return None;
         }
         let val = |i: usize, key: &str| -> Option<&str> { toks[i].strip_prefix(key).and_then(|r| r.strip_prefix('=')) };
@@ -152,11 +160,27 @@ impl Scenario {
         }
         let sack = num(val(7, "sack")?)? as u32;
         let forget = num(val(8, "forget")?)? as usize;
-        let ticks = num(val(9, "ticks")?)? as usize;
-        if ticks == 0 || ticks > 200 || pps == 0 || pps > 2000 || rtt_ms > 2000 || reloads.len() > 4 || bh.len() > 4 {
+        let cfgv = val(9, "cfg")?;
+        let mut cfg = Vec::new();
+        if cfgv != "-" {
+            for part in cfgv.split(',') {
+                let (a, b, c) = triple(part)?;
+                if b > 3 {
+                    return None;
+                }
+                cfg.push((a as usize, b as u8, c));
+            }
+        }
+        let quiet = {
+            let q = val(10, "quiet")?;
+            let (a, b) = q.split_once(':')?;
+            (num(a)? as usize, num(b)? as usize)
+        };
+        let ticks = num(val(11, "ticks")?)? as usize;
+        if ticks == 0 || ticks > 200 || pps == 0 || pps > 2000 || rtt_ms > 2000 || reloads.len() > 4 || bh.len() > 4 || cfg.len() > 6 {
             return None;
         }
-        Some(Scenario { ips, reloads, admit2, pps, rtt_ms, nak_every: ne as u32, nak_from: nf as usize, nak_to: nt as usize, bh, sack, forget, ticks })
+        Some(Scenario { ips, reloads, admit2, pps, rtt_ms, nak_every: ne as u32, nak_from: nf as usize, nak_to: nt as usize, bh, sack, forget, cfg, quiet, ticks })
     }
 }
 
@@ -180,6 +204,8 @@ pub struct LinkTick {
     pub rtt_ms: u64,
     pub window: i64,
     pub in_flight: i64,
+    pub stall_gated: bool,
+    pub stall_gate_events: u64,
 }
 
 #[derive(Clone, Debug)]
@@ -190,6 +216,8 @@ pub struct Tick {
     pub links: Vec<LinkTick>,
     /// number of reloads sent before this tick was published
     pub reloads_sent: usize,
+    pub mode: String,
+    pub quality_enabled: bool,
 }
 
 impl LinkTick {
@@ -278,6 +306,7 @@ struct RecvCtl {
     rtt_ms: u64,
     sack: u32,
     forget: usize,
+    quiet: (usize, usize),
     t0: tokio::time::Instant,
     logs: std::sync::Mutex<Logs>,
 }
@@ -474,6 +503,10 @@ async fn srt_source(port: u16, pps: u32, ctl: Arc<RecvCtl>) {
     let mut pace = tokio::time::interval(Duration::from_micros(1_000_000 / u64::from(pps.max(1))));
     loop {
         pace.tick().await;
+        let tick = ctl.tick.load(Ordering::Relaxed);
+        if tick >= ctl.quiet.0 && tick < ctl.quiet.1 {
+            continue;
+        }
         let pkt = source_packet(seq);
         let now = ctl.now();
         ctl.logs.lock().unwrap().src.push((now, seq));
@@ -525,6 +558,7 @@ pub fn run(sc: &Scenario) -> Result<Trace, &'static str> {
             rtt_ms: sc.rtt_ms,
             sack: sc.sack,
             forget: sc.forget,
+            quiet: sc.quiet,
             t0,
             logs: Default::default(),
         });
@@ -536,7 +570,8 @@ pub fn run(sc: &Scenario) -> Result<Trace, &'static str> {
         hub.subscribe("stats", push_tx).await;
         let binder: Arc<dyn UplinkBinder> = Arc::new(SourceIpBinder);
         let file = path2.to_string_lossy().into_owned();
-        let sender = run_sender_with_config(srt_port, "127.0.0.1", rx_port, &file, DynamicConfig::new(), SharedStats::new(), CriticalWindow::new(), hub.clone(), binder);
+        let config = DynamicConfig::new();
+        let sender = run_sender_with_config(srt_port, "127.0.0.1", rx_port, &file, config.clone(), SharedStats::new(), CriticalWindow::new(), hub.clone(), binder);
         tokio::pin!(sender);
         let scenario = async {
             let mut trace: Vec<Tick> = Vec::new();
@@ -568,13 +603,27 @@ pub fn run(sc: &Scenario) -> Result<Trace, &'static str> {
                         rtt_ms: l["rtt_ms"].as_u64().unwrap_or(0),
                         window: l["window"].as_i64().unwrap_or(0),
                         in_flight: l["in_flight"].as_i64().unwrap_or(0),
+                        stall_gated: l["stall_gated"].as_bool().unwrap_or(false),
+                        stall_gate_events: l["stall_gate_events"].as_u64().unwrap_or(0),
                     });
                 }
                 run2 = match lt.iter().find(|l| l.ip == "127.0.0.2") {
                     Some(l) if l.share_weak() => run2 + 1,
                     _ => 0,
                 };
-                trace.push(Tick { n, at: ctl.now(), links: lt, reloads_sent: next_reload });
+                trace.push(Tick { n, at: ctl.now(), links: lt, reloads_sent: next_reload, mode: data["mode"].as_str().unwrap_or("").to_string(), quality_enabled: data["quality_enabled"].as_bool().unwrap_or(false) });
+                for (t, k, v) in &sc.cfg {
+                    if *t == n {
+                        match k {
+                            0 => config.set_mode(if *v == 1 { srtla_core::mode::SchedulingMode::Classic } else { srtla_core::mode::SchedulingMode::Enhanced }),
+                            1 => config.set_quality_enabled(*v == 1),
+                            2 => config.set_stall_deselect(*v == 1),
+                            _ => {
+                                config.set_conn_timeout_ms(*v);
+                            }
+                        }
+                    }
+                }
                 if let Some((trig, list)) = sc.reloads.get(next_reload) {
                     let fire = match trig {
                         Trigger::AtTick(t) => n >= *t,
@@ -820,6 +869,8 @@ pub fn generate(rng: &mut crate::Rng, for_cc: bool) -> Scenario {
         bh,
         sack: 0,
         forget: 0,
+        cfg: Vec::new(),
+        quiet: (0, 0),
         ticks: rng.range(40, 60) as usize,
     }
 }
@@ -1053,7 +1104,17 @@ pub fn monitors_e2e(trace: &Trace, sc: &Scenario, mon: &mut crate::Mon) {
 
     // ---- C08: an uplink the receiver stops answering is torn down no earlier than the configured timeout after
     // the last thing it was sent, and is connected again within 30 s of the receiver answering it again
-    let timeout_ms = 5000u64; // DynamicConfig::new(): the default; the scenarios do not change it
+    // the timeout in force at a housekeeping pass: the default 5000 ms until a `set_conn_timeout` (clamped to
+    // 1000..60000) applied after an EARLIER tick
+    let timeout_at = |tick_n: usize| -> u64 {
+        let mut v = 5000u64;
+        for (t, k, x) in &sc.cfg {
+            if *k == 3 && *t < tick_n {
+                v = (*x).clamp(1000, 60000);
+            }
+        }
+        v
+    };
     for o in &links {
         for k in 1..trace.ticks.len() {
             let was = trace.ticks[k - 1].links.iter().find(|l| link_of(&l.ip) == *o);
@@ -1066,6 +1127,7 @@ pub fn monitors_e2e(trace: &Trace, sc: &Scenario, mon: &mut crate::Mon) {
                 // answers to that one is after the tear-down), strictly before the snapshot
                 let old_port = trace.rx.iter().filter(|e| e.link == *o && e.at + 500 < trace.ticks[k].at).map(|e| e.port).last();
                 let heard = trace.tx.iter().filter(|t| t.link == *o && Some(t.port) == old_port && t.at < trace.ticks[k].at && !matches!(t.kind, TxKind::Reg2 | TxKind::RegNgp)).map(|t| t.at).max();
+                let timeout_ms = timeout_at(k + 1);
                 if let Some(h) = heard {
                     let silent = trace.ticks[k].at.saturating_sub(h);
                     if silent < timeout_ms {
@@ -1092,6 +1154,11 @@ pub fn monitors_e2e(trace: &Trace, sc: &Scenario, mon: &mut crate::Mon) {
             if !trace.ticks.iter().filter(|t| t.at >= t_end).all(|t| t.links.iter().any(|l| link_of(&l.ip) == *o)) {
                 continue;
             }
+            if sc.cfg.iter().any(|(_, k, v)| *k == 3 && *v > 5000) {
+                // a link that is merely black-holed for less than a long configured timeout is never torn down at all
+                mon.count("e2e-recovery-unjudged:long-timeout");
+                continue;
+            }
             mon.count("e2e-recovery-judged");
             let back = trace.ticks.iter().find(|t| t.at > t_end && t.links.iter().any(|l| link_of(&l.ip) == *o && l.connected && !l.timed_out));
             match back {
@@ -1109,6 +1176,126 @@ pub fn monitors_e2e(trace: &Trace, sc: &Scenario, mon: &mut crate::Mon) {
             } else {
                 mon.count("e2e-reg2-gap>=5s");
             }
+        }
+    }
+}
+
+/// C18 / C12 on the loop's snapshots after run-time setting changes.
+pub fn monitors_cfg(trace: &Trace, sc: &Scenario, mon: &mut crate::Mon) {
+    let what = sc.render();
+    // C18: a setting applied after tick t is what every snapshot from tick t+1 on reports, until the next change
+    for (idx, t) in trace.ticks.iter().enumerate() {
+        let n = idx + 1;
+        let mut mode: Option<u64> = None;
+        let mut quality: Option<u64> = None;
+        for (ct, k, v) in &sc.cfg {
+            if *ct < n {
+                match k {
+                    0 => mode = Some(*v),
+                    1 => quality = Some(*v),
+                    _ => {}
+                }
+            }
+        }
+        if let Some(m) = mode {
+            mon.count("e2e-mode-judged");
+            let want = if m == 1 { "classic" } else { "enhanced" };
+            if t.mode != want {
+                mon.fail("C18", "e2e-mode-not-visible", format!("real event loop [{what}]: mode was set to {want} before tick {n}, the snapshot of tick {n} reports {:?}", t.mode));
+            }
+        }
+        if let (Some(q), Some(m)) = (quality, mode.or(Some(0))) {
+            // quality scoring is reported off in classic mode whatever the setting
+            let want = q == 1 && m == 0;
+            if t.quality_enabled != want {
+                mon.fail("C18", "e2e-quality-not-visible", format!("real event loop [{what}]: quality scoring was set to {} (mode {}) before tick {n}, the snapshot of tick {n} reports {}", q == 1, if m == 1 { "classic" } else { "enhanced" }, t.quality_enabled));
+            }
+        }
+    }
+    // C12: with the guard switched off no uplink is held out of the rotation and no latch engages any more -
+    // from the second snapshot after the change (a routing decision clears the flags)
+    for (idx, t) in trace.ticks.iter().enumerate() {
+        let n = idx + 1;
+        let mut guard: Option<(usize, u64)> = None;
+        for (ct, k, v) in &sc.cfg {
+            if *k == 2 && *ct < n {
+                guard = Some((*ct, *v));
+            }
+        }
+        if let Some((since, 0)) = guard {
+            if n >= since + 3 {
+                mon.count("e2e-guard-off-tick");
+                for l in &t.links {
+                    let prev = trace.ticks[idx - 1].links.iter().find(|p| p.ip == l.ip);
+                    if let Some(p) = prev {
+                        if l.stall_gate_events > p.stall_gate_events {
+                            mon.fail("C12", "e2e-latch-engaged-with-guard-off", format!("real event loop [{what}]: the guard was switched off after tick {since}, yet uplink {} latched between ticks {} and {n} (engagements {} -> {})", l.ip, n - 1, p.stall_gate_events, l.stall_gate_events));
+                        }
+                    }
+                }
+            }
+        }
+    }
+    for t in &trace.ticks {
+        if t.links.iter().any(|l| l.stall_gated) {
+            mon.count("e2e-tick-with-latched-uplink");
+        }
+    }
+    // C10 / C06: classic mode applies no time-based recovery - between two snapshots that both report classic mode
+    // (set before the earlier one), a connected uplink's window does not rise unless the receiver sent an SRTLA ACK
+    // to some uplink in between (the only thing that raises a classic window)
+    for k in 1..trace.ticks.len() {
+        let (a, b) = (&trace.ticks[k - 1], &trace.ticks[k]);
+        let classic_since = sc.cfg.iter().filter(|(_, key, _)| *key == 0).filter(|(t, _, _)| *t < k).last().map(|(_, _, v)| *v == 1).unwrap_or(false);
+        if !(classic_since && a.mode == "classic" && b.mode == "classic") {
+            continue;
+        }
+        let acked = trace.tx.iter().any(|t| matches!(t.kind, TxKind::SrtlaAck) && t.at + 200 >= a.at && t.at <= b.at);
+        if acked {
+            continue;
+        }
+        mon.count("e2e-classic-quiet-interval");
+        for l in &b.links {
+            if let Some(p) = a.links.iter().find(|p| p.ip == l.ip) {
+                if p.connected && l.connected && l.window > p.window {
+                    let what2 = format!("real event loop [{what}]: classic mode (set at run time, reported by both snapshots), no SRTLA ACK sent to any uplink between ticks {k} and {}, yet the window of {} rose {} -> {}: time-based recovery is still applied", k + 1, l.ip, p.window, l.window);
+                    mon.fail("C10", "e2e-classic-window-rose-without-ack", what2.clone());
+                    mon.fail("C06", "e2e-classic-window-rose-without-ack", what2);
+                }
+            }
+        }
+    }
+    // C19: a reload whose file is fully parsable is applied - within three ticks of the SIGHUP the loop's uplink
+    // set is exactly the file's address set (every address of these scenarios is bindable here), survivors first
+    // in their old order; whatever else is going on (registration in progress, a receiver restart, a black-hole)
+    for (r, (_, list)) in sc.reloads.iter().enumerate() {
+        // first tick published with r+1 reloads sent = the tick after the SIGHUP
+        let Some(first) = trace.ticks.iter().position(|t| t.reloads_sent == r + 1) else { continue };
+        let sent_after = first; // 1-based number of the tick after which it was sent
+        let next_sent = trace.ticks.iter().position(|t| t.reloads_sent == r + 2).unwrap_or(usize::MAX);
+        let mut want: Vec<String> = Vec::new();
+        for o in list {
+            let ip = format!("127.0.0.{o}");
+            if !want.contains(&ip) {
+                want.push(ip);
+            }
+        }
+        let mut want_set = want.clone();
+        want_set.sort();
+        let window: Vec<&Tick> = trace.ticks.iter().skip(first).take(3).collect();
+        if window.len() < 3 || next_sent < first + 3 {
+            mon.count("e2e-reload-unjudged");
+            continue;
+        }
+        mon.count("e2e-reload-judged");
+        let applied = window.iter().any(|t| {
+            let mut got: Vec<String> = t.links.iter().map(|l| l.ip.clone()).collect();
+            got.sort();
+            got == want_set
+        });
+        if !applied {
+            let got: Vec<String> = window.last().unwrap().links.iter().map(|l| l.ip.clone()).collect();
+            mon.fail("C19", "e2e-reload-not-applied", format!("real event loop [{what}]: reload #{} (file = {want:?}) was signalled after tick {sent_after}; three ticks later the loop's uplinks are {got:?}", r + 1));
         }
     }
 }
@@ -1136,7 +1323,12 @@ pub fn generate_e2e(rng: &mut crate::Rng) -> Scenario {
         } else if other.len() > 2 {
             other.pop();
         }
-        reloads.push((Trigger::AtTick(rng.range(8, 35) as usize), other));
+        let at = match rng.below(4) {
+            0 => rng.range(1, 3) as usize,                       // while the first registration is still in progress
+            1 if forget != 0 => forget + rng.below(8) as usize,   // while the links re-register after a receiver restart
+            _ => rng.range(8, 35) as usize,
+        };
+        reloads.push((Trigger::AtTick(at), other));
     }
     let (nak_every, nak_from, nak_to) = if rng.chance(1, 3) {
         let from = rng.range(8, 30) as usize;
@@ -1144,7 +1336,7 @@ pub fn generate_e2e(rng: &mut crate::Rng) -> Scenario {
     } else {
         (0, 0, 0)
     };
-    Scenario {
+    let sc = Scenario {
         ips,
         reloads,
         admit2: if rng.chance(1, 4) { rng.range(5, 10) as usize } else { 0 },
@@ -1156,6 +1348,38 @@ pub fn generate_e2e(rng: &mut crate::Rng) -> Scenario {
         bh,
         sack: *rng.pick(&[0u32, 7, 20, 50]),
         forget,
+        cfg: {
+            let mut c = Vec::new();
+            if rng.chance(1, 2) {
+                // a run-time change of the connection timeout, mode, quality scoring or the guard, some before a fault
+                for _ in 0..rng.range(1, 3) {
+                    let what = rng.below(4) as u8;
+                    let v = match what {
+                        3 => *rng.pick(&[1000u64, 2000, 3000, 8000, 12000, 500, 70000]),
+                        _ => rng.below(2),
+                    };
+                    c.push((rng.range(4, 30) as usize, what, v));
+                }
+                c.sort();
+            }
+            c
+        },
+        quiet: if rng.chance(1, 3) {
+            let from = rng.range(6, 30) as usize;
+            (from, from + rng.range(2, 16) as usize)
+        } else {
+            (0, 0)
+        },
         ticks,
+    };
+    // one scenario in six: switch to classic mode at run time, then the source pauses for a while
+    let mut sc = sc;
+    if rng.chance(1, 6) {
+        let at = rng.range(8, 20) as usize;
+        sc.cfg.retain(|(_, k, _)| *k != 0);
+        sc.cfg.push((at, 0, 1));
+        sc.cfg.sort();
+        sc.quiet = (at + 2, at + 2 + rng.range(4, 12) as usize);
     }
+    sc
 }
